@@ -145,6 +145,20 @@ def probes():
                        s_assign([3, r, 1], fld(r, 2)), P(fld(r, 0), 1, fld(r, 1), 1, fld(r, 2)),
                        s_assign([3, r, 2], fld(r, 0)), s_assign([3, r, 0], fld(r, 0)),
                        P(fld(r, 0), 1, fld(r, 1), 1, fld(r, 2), 1, fld(r, 3))]))
+    # a rank-3 array: elements differing in each index are distinct cells
+    b = B('array-rank3')
+    a3 = b.p.new_var('c3%', I)
+    body = [s_dim(False, [[a3, [[1, 2], [0, 2], [-1, 1]], [0, I]]])]
+    k = 0
+    for i in (1, 2):
+        for j in (0, 1, 2):
+            for l in (-1, 0, 1):
+                k += 1
+                body.append(s_assign([2, a3, [int_lit(i), int_lit(j), int_lit(l)]], int_lit(100 + k)))
+    body.append(P(idx(a3, [int_lit(1), int_lit(0), int_lit(-1)]), 1, idx(a3, [int_lit(2), int_lit(0), int_lit(-1)]), 1,
+                  idx(a3, [int_lit(1), int_lit(2), int_lit(1)]), 1, idx(a3, [int_lit(1), int_lit(1), int_lit(0)]), 1,
+                  idx(a3, [int_lit(2), int_lit(2), int_lit(1)])))
+    out.append(b.done(body))
     b = B('byref-aliasing')
     p = b.p
     n = p.new_var('n%', I)
